@@ -18,6 +18,7 @@ KEYFLD = z3.Function("KEYFLD", Visit, z3.StringSort(), z3.IntSort())
 KEYFLD_F = z3.Function("KEYFLD_F", Visit, z3.StringSort(), z3.IntSort(), z3.IntSort())
 HASINTLIT = z3.Function("HASINTLIT", z3.IntSort(), z3.BoolSort())
 INTLIT = z3.Function("INTLIT", z3.IntSort(), z3.IntSort())
+READFIELDCLS = z3.Function("READFIELDCLS", z3.IntSort(), z3.IntSort())   # class id of the field a field-read node reads
 
 
 from pyvc.values import V
@@ -98,6 +99,9 @@ def is_field_read_f(key, sv, field_cls):
         return N.native_is_field_read(key, sv, name)
     p = ISFIELDREAD_F(_s(key), _t(sv), _clsid(field_cls))
     _read_axiom(p, sv)
+    # a node reads one field: (leaf) field classes of two reads of the same node coincide
+    from pyvc.dsl import current
+    current().st.pc.append(z3.Implies(p, READFIELDCLS(_t(sv)) == _clsid(field_cls)))
     return VBool(p)
 
 
